@@ -1,5 +1,6 @@
 import CTV.Lemmas.Tbs
 import CTV.Gen.TbsFacts
+import CTV.Props.C04SctList
 /-!
 # C03 — precertificate route and embedded-SCT route yield the identical log entry
 
@@ -80,12 +81,6 @@ theorem facts_as_modelled :
        "=> return data, nil"] := by
   repeat' apply And.intro
   all_goals decide
-
-/-- the SCT-list length prefixes are two bytes wide for the regenerated limits (`byteCount(maxlen) = 2`) -/
-def genLim : SctLimits := ⟨Gen.sctItemMin, Gen.sctItemMax, Gen.sctListMin, Gen.sctListMax⟩
-
-theorem genLim_two_byte_prefixes : 256 ≤ genLim.itemMax ∧ genLim.itemMax < 65536 ∧ 256 ≤ genLim.listMax ∧ genLim.listMax < 65536 := by
-  decide
 
 /-! ## DER: encodings are unique -/
 
@@ -564,119 +559,88 @@ example : leafFromPrecertChain (marshalTbs (exBase.withExts [exPoison, exKU])) [
     leafForEmbeddedSCT (marshalTbs (exBase.withExts [exKU, exSct])) [] = none := by
   set_option maxRecDepth 100000 in decide
 
-/-! ## `sctlist_roundtrip` -/
+/-! ## `sctlist_roundtrip`
 
-/-- **The SCT list read back equals the list embedded, element for element** — for any limits whose length prefixes are two
-bytes wide (RFC 6962 §3.3: `opaque SerializedSCT<1..2^16-1>`, `SignedCertificateTimestampList<1..2^16-1>`): whatever
-`ASN1MarshalSCTs` / `tls.Marshal(SignedCertificateTimestampList)` + `asn1.Marshal` writes as the extension value, the
-certificate parser reads back as exactly the same list of `SerializedSCT`s. -/
-theorem sctlist_roundtrip_lim (lim : SctLimits) (hi : lim.itemMax < 65536) (hl : lim.listMax < 65536)
-    (l : List Bytes) (v : Bytes) (h : sctExtValue lim l = some v) : parseSctExtValue lim v = some l := by
-  simp only [sctExtValue, marshalSctList] at h
-  cases he : encSctItems lim l with
-  | none => simp [he] at h
-  | some b =>
-    simp only [he] at h
-    split at h
-    · simp at h
-    · rename_i hb
-      simp at h; subst h
-      have hb' : b.length < 65536 := by omega
-      have h2 : (beEnc 2 b.length).length = 2 := beEnc_length 2 _
-      have hok : (⟨[0x04], beEnc 2 b.length ++ b⟩ : Tlv).ok = true := by
-        simp [Tlv.ok, validTag_04, h2]; omega
-      simp only [parseSctExtValue, parseOne_encTlv _ hok, if_true, parseSctList]
-      have t2 : (beEnc 2 b.length ++ b).take 2 = beEnc 2 b.length := take_append_len _ _ _ h2
-      have d2 : (beEnc 2 b.length ++ b).drop 2 = b := drop_append_len _ _ _ h2
-      have hd : beDec (beEnc 2 b.length) = b.length := beDec_beEnc 2 _ (by simpa using hb')
-      rw [t2, d2, hd]
-      have c1 : ¬ (beEnc 2 b.length ++ b).length < 2 := by simp [h2]
-      have c2 : ¬ (b.length < lim.listMin ∨ lim.listMax < b.length) := hb
-      simp only [c1, c2, if_false, ne_eq, not_true_eq_false]
-      exact encSctItems_parse lim hi l b b.length he (Nat.le_refl _)
+The TLS layer of the SCT-list extension is the generic codec at the regenerated type `CtWire.tSCTList` (`Tls.enc` / `Tls.dec`,
+CTV/Tls/Codec.lean); the statements below follow from its round-trip theorem `Tls.dec_enc` and from C04's comparison of that
+type with RFC 6962 §3.3 (`C04.enc_sctList_sound`, `C04SctList.enc_sctList`), not from a codec written for this property. -/
 
-/-- the limits RFC 6962 §3.3 gives -/
-def rfcLim : SctLimits := ⟨1, 65535, 1, 65535⟩
+theorem sctList_wf : CtWire.tSCTList.wf = true := by
+  rw [CtWire.ty_SCTList]; exact CtWire.wf_SCTList _
 
-/-- the limits read from the struct tags are RFC 6962's (since the fix of finding C03-1 / F4, `maxlen:65335` → `65535`; a
-regression re-opens this theorem and the harness case `sctlist-rfc-valid`) -/
-theorem genLim_is_rfc : genLim = rfcLim := by
-  have h : Gen.sctItemMin = 1 ∧ Gen.sctItemMax = 65535 ∧ Gen.sctListMin = 1 ∧ Gen.sctListMax = 65535 := by decide
-  simp [genLim, rfcLim, h.1, h.2.1, h.2.2.1, h.2.2.2]
-
-/-- **every list RFC 6962 allows** is read back by the certificate parser as embedded -/
-theorem sctlist_roundtrip_rfc (l : List Bytes) (v : Bytes) (h : sctExtValue rfcLim l = some v) : parseSctExtValue genLim v = some l := by
-  rw [genLim_is_rfc]
-  exact sctlist_roundtrip_lim rfcLim (by decide) (by decide) l v h
-
-/-- the instance for the limits the code has today (regenerated from the struct tags) -/
-theorem sctlist_roundtrip (l : List Bytes) (v : Bytes) (h : sctExtValue genLim l = some v) : parseSctExtValue genLim v = some l := by
-  obtain ⟨_, hi, _, hl⟩ := genLim_two_byte_prefixes
-  exact sctlist_roundtrip_lim genLim hi hl l v h
-
-/-- what the code embeds is what RFC 6962 embeds: whenever the code's marshaller succeeds it writes the RFC encoding -/
-theorem sctlist_code_is_rfc (l : List Bytes) (v : Bytes) (h : sctExtValue genLim l = some v) : sctExtValue rfcLim l = some v := by
-  have hg : genLim.itemMin = 1 ∧ genLim.listMin = 1 ∧ genLim.itemMax ≤ 65535 ∧ genLim.listMax ≤ 65535 := by decide
-  obtain ⟨g1, g2, g3, g4⟩ := hg
-  have items : ∀ (l : List Bytes) (b : Bytes), encSctItems genLim l = some b → encSctItems rfcLim l = some b := by
-    intro l
-    induction l with
-    | nil => intro b hb; simpa [encSctItems] using hb
-    | cons s rest ih =>
-      intro b hb
-      simp only [encSctItems] at hb ⊢
-      split at hb
-      · simp at hb
-      · rename_i hc
-        cases hr : encSctItems genLim rest with
-        | none => simp [hr] at hb
-        | some r =>
-          simp only [hr] at hb
-          have hc' : ¬ (s.length < rfcLim.itemMin ∨ rfcLim.itemMax < s.length) := by
-            simp only [rfcLim]; omega
-          simp only [hc', if_false, ih r hr]
-          exact hb
-  simp only [sctExtValue, marshalSctList] at h ⊢
-  cases he : encSctItems genLim l with
-  | none => simp [he] at h
-  | some b =>
-    simp only [he] at h
-    rw [items l b he]
-    split at h
-    · simp at h
+/-- the marshaller's output: the generic codec's bytes for the regenerated type, which are the RFC 6962 §3.3 encoding
+(`C04.enc_sctList_sound`) and at most 2 + 65535 bytes long, wrapped in an OCTET STRING -/
+theorem sctlist_is_rfc (l : List Bytes) (v : Bytes) (h : sctExtValue l = some v) :
+    ∃ b, Tls.enc CtWire.tSCTList (CtWire.sctListVal l) = .ok b ∧ Rfc.sctList l = some b ∧ v = encTlv ⟨[0x04], b⟩ ∧ b.length ≤ 65537 := by
+  unfold sctExtValue at h
+  cases he : Tls.enc CtWire.tSCTList (CtWire.sctListVal l) with
+  | error e => simp [he] at h
+  | ok b =>
+    simp only [he, Option.some.injEq] at h
+    have hr := C04.enc_sctList_sound l b he
+    refine ⟨b, rfl, hr, h.symm, ?_⟩
+    simp only [Rfc.sctList, bind, Option.bind_eq_some_iff] at hr
+    obtain ⟨body, _, hv⟩ := hr
+    have hl := Rfc.varVector_length _ _ _ _ hv
+    unfold Rfc.varVector at hv
+    split at hv
     · rename_i hc
-      have hc' : ¬ (b.length < rfcLim.listMin ∨ rfcLim.listMax < b.length) := by
-        simp only [rfcLim]; omega
-      simp only [hc', if_false]
-      exact h
+      have : Rfc.lenWidth 65535 = 2 := by decide
+      omega
+    · cases hv
 
-/-- an empty list and an empty SCT cannot be embedded (`minlen:1` on both levels) -/
-theorem sctlist_min (l : List Bytes) (h : l = [] ∨ [] ∈ l) : sctExtValue genLim l = none := by
-  have hmin : genLim.itemMin = 1 ∧ genLim.listMin = 1 := by decide
-  rcases h with rfl | h
-  · simp [sctExtValue, marshalSctList, encSctItems, hmin.2]
-  · have : encSctItems genLim l = none := by
-      induction l with
-      | nil => simp at h
-      | cons s rest ih =>
-        simp only [encSctItems]
-        split
-        · rfl
-        · rename_i hb
-          simp at h
-          rcases h with h | h
-          · subst h; simp [hmin.1] at hb
-          · simp [ih h]
-    simp [sctExtValue, marshalSctList, this]
+/-- **The SCT list read back equals the list embedded, element for element**: whatever `ASN1MarshalSCTs` /
+`tls.Marshal(SignedCertificateTimestampList)` + `asn1.Marshal` writes as the extension value, the certificate parser
+(`asn1.Unmarshal` into `[]byte`, `tls.Unmarshal`, no rest on either level) reads back as exactly the same list of `SerializedSCT`s. -/
+theorem sctlist_roundtrip (l : List Bytes) (v : Bytes) (h : sctExtValue l = some v) : parseSctExtValue v = some l := by
+  obtain ⟨b, he, _, hv, hlen⟩ := sctlist_is_rfc l v h
+  have hok : (⟨[0x04], b⟩ : Tlv).ok = true := by simp [Tlv.ok, validTag_04]; omega
+  have hd := Tls.dec_enc CtWire.tSCTList _ b [] sctList_wf he
+  simp only [List.append_nil] at hd
+  rw [hv]
+  simp only [parseSctExtValue, parseOne_encTlv _ hok, if_true, hd]
+  exact sctListOfVal_sctListVal l
 
-example : sctExtValue genLim [] = none ∧ sctExtValue genLim [[0x01], []] = none ∧
-    sctExtValue rfcLim [[0xaa]] = sctExtValue genLim [[0xaa]] ∧ (sctExtValue genLim [[0xaa]]).isSome = true := by
-  set_option maxRecDepth 100000 in decide
+/-- **every list RFC 6962 allows** (`opaque SerializedSCT<1..2^16-1>`, `sct_list<1..2^16-1>`) can be embedded and is read back as
+embedded. This is the statement that finding C03-1 / F4 (`maxlen:65335`) violated; it is available because the regenerated tag now
+says 65535 (`C04SctList.tag_is_rfc`; on a tree with another bound that module is empty and this theorem does not build). -/
+theorem sctlist_roundtrip_rfc (l : List Bytes) (b : Bytes) (h : Rfc.sctList l = some b) :
+    sctExtValue l = some (encTlv ⟨[0x04], b⟩) ∧ parseSctExtValue (encTlv ⟨[0x04], b⟩) = some l := by
+  have he := C04SctList.enc_sctList l
+  rw [h, CtWire.eo_eq_some] at he
+  have hv : sctExtValue l = some (encTlv ⟨[0x04], b⟩) := by simp [sctExtValue, he]
+  exact ⟨hv, sctlist_roundtrip l _ hv⟩
 
-example : sctExtValue genLim [[0xaa, 0xbb], [0xcc]] = some [0x04, 0x09, 0x00, 0x07, 0x00, 0x02, 0xaa, 0xbb, 0x00, 0x01, 0xcc] ∧
-    parseSctExtValue genLim [0x04, 0x09, 0x00, 0x07, 0x00, 0x02, 0xaa, 0xbb, 0x00, 0x01, 0xcc] = some [[0xaa, 0xbb], [0xcc]] ∧
-    parseSctExtValue genLim [0x04, 0x0a, 0x00, 0x07, 0x00, 0x02, 0xaa, 0xbb, 0x00, 0x01, 0xcc, 0x00] = none ∧
-    parseSctExtValue genLim [0x04, 0x09, 0x00, 0x07, 0x00, 0x02, 0xaa, 0xbb, 0x00, 0x02, 0xcc] = none := by
-  set_option maxRecDepth 100000 in decide
+theorem concatAll_empty_item (l : List Bytes) (h : [] ∈ l) : Rfc.concatAll Rfc.serializedSCT l = none := by
+  induction l with
+  | nil => simp at h
+  | cons s rest ih =>
+    simp only [Rfc.concatAll]
+    simp at h
+    rcases h with h | h
+    · subst h; simp [Rfc.serializedSCT, Rfc.varVector]
+    · rw [ih h]
+      cases Rfc.serializedSCT s <;> rfl
+
+/-- an empty list and an empty SCT cannot be embedded (`<1..` on both levels) -/
+theorem sctlist_min (l : List Bytes) (h : l = [] ∨ [] ∈ l) : sctExtValue l = none := by
+  cases hv : sctExtValue l with
+  | none => rfl
+  | some v =>
+    exfalso
+    obtain ⟨b, _, hr, _, _⟩ := sctlist_is_rfc l v hv
+    rcases h with rfl | h
+    · simp [Rfc.sctList, Rfc.concatAll, Rfc.varVector, bind] at hr
+    · simp [Rfc.sctList, concatAll_empty_item l h, bind] at hr
+
+example : sctExtValue [] = none ∧ sctExtValue [[0x01], []] = none ∧ (sctExtValue [[0xaa]]).isSome = true := by
+  refine ⟨sctlist_min _ (Or.inl rfl), sctlist_min _ (Or.inr (by simp)), ?_⟩
+  decide +kernel
+
+example : sctExtValue [[0xaa, 0xbb], [0xcc]] = some [0x04, 0x09, 0x00, 0x07, 0x00, 0x02, 0xaa, 0xbb, 0x00, 0x01, 0xcc] ∧
+    parseSctExtValue [0x04, 0x09, 0x00, 0x07, 0x00, 0x02, 0xaa, 0xbb, 0x00, 0x01, 0xcc] = some [[0xaa, 0xbb], [0xcc]] ∧
+    parseSctExtValue [0x04, 0x0a, 0x00, 0x07, 0x00, 0x02, 0xaa, 0xbb, 0x00, 0x01, 0xcc, 0x00] = none ∧
+    parseSctExtValue [0x04, 0x09, 0x00, 0x07, 0x00, 0x02, 0xaa, 0xbb, 0x00, 0x02, 0xcc] = none := by
+  decide +kernel
 
 end C03
